@@ -42,6 +42,10 @@ JOINT3 = {'AFREE': '0x%xul' % sum(1 << i for i in (0, 2, 4, 10)), 'AFIN': '0x2u'
 # 2 x 3 product of child tuples
 PROD23 = {'AFREE': '0x29ul', 'AFIN': '0x1u', 'BFREE': '0x7ffbul', 'BFIN': '0x1u'}
 
+# A over 2 states: a->p0, a->p1, b->p1, g(p0,p0)->p1, g(p0,p1)->p0, g(p1,p0)->p0; B over 2 states: the 8-rule sub-universe B8: both
+# children of a rule of A carry several macro-states of B at the same time (the combinations of finding C07-1)
+UP22 = {'AFREE': '0x16bul', 'BFREE': B8}
+
 def c07_configs(tier):
     out = []
     out.append(pair(2, 3, [0, 0, 2], **dict(PROD23, ENC=0, SEL=0, SIMSRC=0, _time=1500)))       # 19 bits
@@ -53,10 +57,13 @@ def c07_configs(tier):
         slow = (enc, sel, src) == (0, 5, 0)                          # also computes the simulation in the harness (which this selection ignores): minutes
         if not slow:                                                 # (0,5,0): the small universes only, in both tiers - (0,5,1) runs the same library code on the large ones
             out.append(pair(1, 2, [0, 0, 2], BFREE=B6X, **k))        # 12 bits
-            if (enc, sel) != (0, 0) and (enc, sel) != (0, 1):        # (bottom-up upward: known finding C07-1 for rank 2 in A)
-                out.append(pair(2, 3, [0, 0, 2], **dict(JOINT, _time=1500, **k)))    # 14 bits
-                if tier == 'thorough' or (enc, sel) in ((1, 4), (1, 5)):        # quick: the plain downward functor with and without a relation; the others take 3..8 minutes each
-                    out.append(pair(2, 3, [0, 0, 0, 2], **dict(JOINT3, _time=1500, **k)))   # 15 bits
+            out.append(pair(2, 3, [0, 0, 2], **dict(JOINT, _time=1500, **k)))    # 14 bits
+            if tier == 'thorough' or (enc, sel) in ((1, 4), (1, 5), (0, 0)):        # quick: the plain downward functor with and without a relation, the upward algorithm; the others take 3..8 minutes each
+                out.append(pair(2, 3, [0, 0, 0, 2], **dict(JOINT3, _time=1500, **k)))   # 15 bits
+            if (enc, sel) in ((0, 0), (0, 1)):                       # bottom-up upward (finding C07-1, fixed): rank 2 in the smaller automaton
+                out.append(pair(2, 1, [0, 2], _time=1500, **k))      # 15 bits
+                out.append(pair(1, 2, [0, 2], _time=1500, **k))      # 15 bits
+                if tier == 'thorough' or (enc, sel) == (0, 0): out.append(pair(2, 2, [0, 0, 2], **dict(UP22, _time=2800, **k)))   # 18 bits
         out.append(pair(1, 1, [0, 0, 1], **k))                       # 8 bits
         out.append(pair(1, 1, [0, 0, 2], **k))                       # 8 bits
         out.append(pair(2, 1, [0, 1], **k))                          # 11 bits
@@ -84,8 +91,8 @@ CHECKS = {
  'C07': {
   'level': 'model_checking',
   'explanation': 'BDDBottomUpTreeAut::CheckInclusion / BDDTopDownTreeAut::CheckInclusion executed symbolically (MTBDD package, sanitisation, inversion to top-down form, simulation computation included) for every parameter selection on every pair of automata drawn from the rule universes of the configuration (presence bit per rule, finality bit per state); operands loaded through LoadFromString and prepared as cli/operations.hh does (SanitizeAutsForInclusion; for sim=yes the relation the tool computes on UnionDisjointStates, or the identity relation where the library cannot compute one). Implemented selections: the verdict must equal an independent macro-state inclusion oracle on the rule masks (the same oracle semantics as the explicit-encoding check C01); every other selection must end in an exception (of any type) - or, should a future version implement it, in that same exact verdict: never in a wrong one.',
-  'bounds': {'quick': 'pairs (A,B): 1+1 over {a/0,b/0,f/1} and {a/0,b/0,g/2}; 2+1, 1+2 over {a/0,f/1}; 1+2 over {a/0,b/0,g/2} with B restricted to a 6-rule sub-universe in which children are reached by different trees; all rule subsets and final sets (8..12 free bits per query); 8 implemented selections (bottom-up: upward, upward+identity relation, downward+simulation computed by the library; top-down: downward recursive with/without implication cache, with/without identity relation), the unimplemented selections on 1+1 (5 whose exception comes from ComputeSimulation; 11 more whose message needs std::ostringstream are registered but switched off until the engine models it); plus (added after the red-team rounds): B6X (one child position of a binary rule of B simulates, the other does not), the joint-cover universes JOINT (2+3 over {a/0,b/0,g/2}, 14 bits) and JOINT3 (2+3 over {a/0,b/0,c/0,g/2}, 15 bits; quick: the plain downward functor with and without relation), PROD23 (2+3 over {a/0,b/0,g/2}, 19 bits: a 2 x 3 product of child tuples in the upward algorithm), calls without caller-side sanitisation for the selections that sanitise themselves, and 8 top-down queries under the heap model that reuses released addresses',
-             'thorough': 'as quick plus 2+2 over {a/0,f/1}, 1+2 over {a/0,b/0,g/2} with an 8-rule sub-universe of B, 2+1 with loader-assigned numbering (up to 16 free bits per query); JOINT / JOINT3 for every implemented selection, PROD23 with a supplied relation, address reuse also for bottom-up downward and on JOINT'},
+  'bounds': {'quick': 'pairs (A,B): 1+1 over {a/0,b/0,f/1} and {a/0,b/0,g/2}; 2+1, 1+2 over {a/0,f/1}; 1+2 over {a/0,b/0,g/2} with B restricted to a 6-rule sub-universe in which children are reached by different trees; all rule subsets and final sets (8..12 free bits per query); 8 implemented selections (bottom-up: upward, upward+identity relation, downward+simulation computed by the library; top-down: downward recursive with/without implication cache, with/without identity relation), the unimplemented selections on 1+1 (5 whose exception comes from ComputeSimulation, 11 whose message is built through the Convert stubs); plus (added after the red-team rounds): B6X (one child position of a binary rule of B simulates, the other does not), the joint-cover universes JOINT (2+3 over {a/0,b/0,g/2}, 14 bits) and JOINT3 (2+3 over {a/0,b/0,c/0,g/2}, 15 bits; quick: the plain downward functor with and without relation), PROD23 (2+3 over {a/0,b/0,g/2}, 19 bits: a 2 x 3 product of child tuples in the upward algorithm), calls without caller-side sanitisation for the selections that sanitise themselves, and 8 top-down queries under the heap model that reuses released addresses; since the repair of C07-1 the two upward selections also run on JOINT, JOINT3 (without relation), the full 2+1 and 1+2 universes over {a/0,g/2} (15 bits) and, without relation, UP22 (2+2 over {a/0,b/0,g/2}, 18 bits: both children of a rule of A carry several macro-states of B)',
+             'thorough': 'as quick plus 2+2 over {a/0,f/1}, 1+2 over {a/0,b/0,g/2} with an 8-rule sub-universe of B, 2+1 with loader-assigned numbering (up to 16 free bits per query); JOINT / JOINT3 for every implemented selection, PROD23 with a supplied relation, address reuse also for bottom-up downward and on JOINT; UP22 and JOINT3 also with a supplied relation'},
   'outside': 'more than 2 states per operand, rank > 2, more than 3 symbols; simulation relations other than identity / the one the library computes; congruence algorithm, breadth-first order',
   'harnesses': [
     {'name': 'bddincl', 'src': 'harness/C07/bddincl.cc', 'tus': BDD_INCL,
